@@ -410,6 +410,37 @@ def match_known(prop, known, case, ires, v):
     return None
 
 
+def all_violations(prop, cases, impl, wd, tag):
+    """{case id: violations} from the Python oracle and, when the plugin has one, the Coq checker (`oracle_model`)
+    evaluated on the implementation's output of exactly these runs."""
+    model = {}
+    if hasattr(prop, 'oracle_model'):
+        try:
+            model = run_model(prop, cases, wd, tag, impl=impl)
+        except Exception as e:  # noqa
+            log('model evaluation failed while re-evaluating: %r' % (e,))
+    out = {}
+    for c in cases:
+        i = impl.get(c['id'])
+        if i is None:
+            continue
+        ires = {'panic': i['panic']} if 'panic' in i else i['res']
+        try:
+            vs = prop.oracle(c, ires) or []
+        except Exception:
+            vs = []
+        vs = [vs] if isinstance(vs, dict) else list(vs)
+        m0 = model.get(c['id'])
+        if m0 is not None and not (isinstance(m0, tuple) and m0 and m0[0] == '#error'):
+            try:
+                mv = prop.oracle_model(c, ires, m0) or []
+            except Exception:
+                mv = []
+            vs += [mv] if isinstance(mv, dict) else list(mv)
+        out[c['id']] = (ires, vs)
+    return out
+
+
 def shrink_case(prop, exe, wd, case, v):
     """delta-debug a failing case when the plugin offers `shrink_candidates`; re-runs the implementation."""
     if not hasattr(prop, 'shrink_candidates'):
@@ -426,18 +457,11 @@ def shrink_case(prop, exe, wd, case, v):
             c['id'] = 's%d' % k
         impl, rc, out = run_harness(exe, prop.HARNESS, cands, wd, 'shrink')
         budget -= 1
+        res = all_violations(prop, cands, impl, wd, 'shrink')
         for c in cands:
-            i = impl.get(c['id'])
-            if i is None:
+            if c['id'] not in res:
                 continue
-            ires = {'panic': i['panic']} if 'panic' in i else i['res']
-            try:
-                vs = prop.oracle(c, ires) or []
-            except Exception:
-                vs = []
-            if isinstance(vs, dict):
-                vs = [vs]
-            if any(x.get('class') == v.get('class') for x in vs):
+            if any(x.get('class') == v.get('class') for x in res[c['id']][1]):
                 cur = c
                 improved = True
                 break
@@ -589,9 +613,16 @@ def main_replay(pid, path):
     print('case :', json.dumps(case))
     print('impl :', json.dumps(ires))
     print('model:', model.get('r0'))
-    v = prop.oracle(case, ires)
+    v = all_violations(prop, [case], impl, wd, 'replay').get('r0', (None, []))[1]
     print('oracle:', v)
-    return 1 if v else 0
+    known = load_known()
+    fresh = [x for x in v if not match_known(prop, known, case, ires, x)]
+    for x in v:
+        if x not in fresh:
+            print('KNOWN-FINDING: property=%s %s' % (pid, x.get('class')))
+    if fresh:
+        print('VIOLATION property=%s replay=%s' % (pid, path))
+    return 1 if fresh else 0
 
 
 def main_setup():
